@@ -12,6 +12,13 @@ func Copy(source, dest string) error {
 	}
 	defer in.Close()
 
+	if sourceInfo, err := in.Stat(); err == nil {
+		if destInfo, err := os.Stat(dest); err == nil && os.SameFile(sourceInfo, destInfo) {
+			/* Copying a file onto itself: os.Create would empty it. */
+			return nil
+		}
+	}
+
 	out, err := os.Create(dest)
 	if err != nil {
 		return err
